@@ -4,7 +4,7 @@
    statements below are about the constants, tables and regular expression
    that are in version.go on this run. *)
 From Apko Require Import Base.Prelude Base.Regex Spec.VersionSpec Model.Version Proofs.VersionProofs Proofs.ConstraintProofs
-  Generated.Regexes Generated.VersionConsts Generated.C03Version.
+  Generated.Regexes Generated.VersionConsts Generated.C03Version Generated.C03Ladders.
 Open Scope Z_scope.
 
 (* the apk order is a total order on version tuples: reflexive, antisymmetric,
@@ -17,6 +17,14 @@ Theorem c03_total_order :
   (forall a b, spec_cmp a b = Lt \/ spec_cmp a b = Eq \/ spec_cmp a b = Gt).
 Proof. exact spec_cmp_total_order. Qed.
 Print Assumptions c03_total_order.
+
+(* [compare_versions] and [includes_version_res] interpret the rungs goextract
+   recognised, statement by statement, in CompareVersions / includesVersion on
+   this run; here they are pinned to their readable hand-written forms *)
+Theorem c03_ladders_are_the_source : forall a r,
+  compare_versions a r = compare_versions_hand a r /\ includes_version_res a r = includes_version_hand a r.
+Proof. intros; split; [apply compare_ladder_is_hand | apply includes_ladder_is_hand]. Qed.
+Print Assumptions c03_ladders_are_the_source.
 
 (* CompareVersions is that order, for all parsed versions (numeric components,
    letter, pre-suffix with alpha<beta<pre<rc<none, suffix number, post-suffix
@@ -41,8 +49,9 @@ Theorem c03_operator_rows :
 Proof. vm_compute. reflexivity. Qed.
 Print Assumptions c03_operator_rows.
 
+(* includesVersion never indexes out of range (Some) and computes the spec's ~ *)
 Theorem c03_tilde : forall a r va vr, abs a = Some va -> abs r = Some vr ->
-  includes_version a r = spec_tilde va vr.
+  includes_version_res a r = Some (spec_tilde va vr).
 Proof. exact includes_is_spec. Qed.
 Print Assumptions c03_tilde.
 
